@@ -236,7 +236,8 @@ _R11C_TEXT = {
     "C08": " (DIAG1, ASTYPE1, CMPSTMT1, NULLDIR1): from_diagram looks pairs up with the default label 2; real-valued matrices are cast only to dtypes from check_type(integer_type=False); no bare comparison statement; diagonalize_form leaves null directions unscaled (W invertible for degenerate forms).",
     "C12": " (ASTYPE1).",
     "C15": " Also (CONTRA1): a parameter read under try / except AttributeError has no other non-ndarray attribute read outside such a try (from_reflection accepts a plain matrix).",
-    "C07": " INFC also reads the vectorised (masked store / np.where) form of the infinity convention; ORD2 reads dict(enumerate(..)) and dict comprehensions over enumerate(..).",
+    "C10": " Also (BFS5): every push onto a traversal queue records the vertex where it is queued.",
+    "C07": " (BFS5). INFC also reads the vectorised (masked store / np.where) form of the infinity convention; ORD2 reads dict(enumerate(..)) and dict comprehensions over enumerate(..).",
 }
 for _k, _v in _R11_TEXT.items():
     EXTRA_TEXT[_k] = EXTRA_TEXT.get(_k, '') + _v
